@@ -62,6 +62,10 @@ Grid == { Xfer(0, "uusdc", 10000, [a EXCEPT !.pid = p], acts) : p \in Pids, a \i
         \cup { Xfer(1, "ustake", 777, [FwHYP("T2", 2, "R_B") EXCEPT !.gas = 9], <<>>) }
 Replaces == { [AdminIn("ReplaceDepositForBurn", s) EXCEPT !.fw = FwCCTP(0, m, c), !.who = w] :
                 s \in {"AUTH", "M", "EMPTY"}, m \in {"MINT_A", "MINT_B"}, c \in {"CALLER_A", "CALLER_B", "NONE"}, w \in {"x", "y"} }
+            \* originals that are WELL-FORMED CCTP messages with a restricted (WFR) / open (WFO) destination caller:
+            \* the replacement carries the authority's fields, whatever the original said (empty caller = no caller)
+            \cup { [AdminIn("ReplaceDepositForBurn", "AUTH") EXCEPT !.fw = FwCCTP(0, m, c), !.who = w] :
+                     m \in {"MINT_A", "MINT_ZERO", "NONE"}, c \in {"CALLER_A", "NONE", "CALLER_ZERO"}, w \in {"WFR", "WFO"} }
 
 MCAlphabet == Grid \cup Replaces
 SmallAlphabet == MCAlphabet
